@@ -508,10 +508,6 @@ theorem junction_text_order_irrelevant (isAnd : Bool) (fqs₁ fqs₂ : List Stri
 
 open Witness
 
-/-- `(g.centre == 1) & ((g.sigma == 2) & (g.centre == 1))` -/
-def dupPred : Pred Nat :=
-  .and (.path "g" ["centre"] (.num .eq 1)) (.and (.path "g" ["sigma"] (.num .eq 2)) (.path "g" ["centre"] (.num .eq 1)))
-
 example : SoundEq (fun a b : Q Nat => Q.same a b) := Q.same_sound
 -- the repeated comparison is kept once (list version: `g(&[centre(&[V,V]),sigma(V)])`)
 example : (compileSTop {} true Q.same Q.render dupPred).render = "g(&[centre(V),sigma(V)])" := by decide +kernel
@@ -530,9 +526,6 @@ example : junctionFitText true ["x", "y"] = junctionFitText true ["y", "x"] :=
 
 /-! ### bare paths as predicates (`agg.model.g`: the attribute exists) -/
 
-/-- `g | (g.centre == 1)` -/
-def bareOr : Pred Nat := .or (.path "g" [] .any) (.path "g" ["centre"] (.num .eq 1))
-
 /-- **Bare path.** `aggregator.model.a.b` used as a predicate selects the fits whose instance has `a.b`. -/
 theorem bare_path_correct {α : Type} (ops : NumOps α) (f : Fit α) (hwf : f.inst.WF = true) (n : String) (ns : List String) :
     sem ops f (pathQ (n :: ns) .any) f.inst = (f.inst.follow (n :: ns)).isSome := by
@@ -546,7 +539,7 @@ theorem compile_refuted_bare_or :
     ∃ (p : Pred Nat) (db : List (Fit Nat)), (∀ f ∈ db, f.inst.WF = true) ∧
       (queryFits Witness.natOps (compileSTop {} false Q.same Q.render p) db).map (·.id)
         ≠ (directFits Witness.natOps p db).map (·.id) :=
-  ⟨bareOr, Witness.db, by decide, by decide +kernel⟩
+  ⟨Witness.bareOr, Witness.db, by decide, by decide +kernel⟩
 
 -- repaired: every fit has `g`; pinned: the alternative is lost
 example : (queryFits natOps (compileSTop {} true Q.same Q.render bareOr) db).map (·.id) = ["a", "b", "c", "d", "e"] := by
